@@ -6,8 +6,10 @@ import (
 	"berty.tech/go-orbit-db/stores/operation"
 	cid "github.com/ipfs/go-cid"
 	"sort"
+	"time"
 
 	"github.com/ipfs/boxo/path"
+	"verifmc/sim"
 )
 
 func cidsToStringers(cs []cid.Cid) []interface{ String() string } {
@@ -33,3 +35,9 @@ func parseOp(e ipfslog.Entry) (operation.Operation, error) { return operation.Pa
 func sortStrings(s []string) { sort.Strings(s) }
 
 type pathT = path.Path
+
+// settle is the terminal guard of the schedule engines: wait a little, then require quiescence again.
+func settle() {
+	time.Sleep(time.Millisecond)
+	_ = sim.Quiesce()
+}
